@@ -12,6 +12,7 @@ import (
 	"github.com/dominant-strategies/go-quai/common"
 	"github.com/dominant-strategies/go-quai/core/rawdb"
 	"github.com/dominant-strategies/go-quai/core/types"
+	"github.com/dominant-strategies/go-quai/crypto"
 	"github.com/dominant-strategies/go-quai/params"
 	"verifharness/mininet"
 	"verifharness/wallet"
@@ -40,6 +41,7 @@ type Runner struct {
 	FollowerChecks int
 	FreshReplays   int
 	Adversarial    int
+	FailingTxs     int
 	etxIDs         map[string]int
 	etxEmitted     map[int]etxRec
 }
@@ -299,6 +301,29 @@ func (r *Runner) RandomContent(n int) (submitted int) {
 			if err := e.AddTx(tx); err == nil {
 				submitted++
 				r.quaiNonce[from.Addr]++
+			}
+		case x == 9 && r.R.Intn(2) == 0: // a transaction that is includable but FAILS in the EVM: creation whose init code reverts
+			from := e.Quai[r.R.Intn(len(e.Quai))]
+			nonce := r.stateNonce(from) + r.quaiNonce[from.Addr]
+			var code []byte
+			var caddr common.Address
+			for salt := 0; ; salt++ {
+				code = []byte{0x60, 0x00, 0x60, 0x00, 0xfd, byte(salt >> 8), byte(salt)}
+				caddr = crypto.CreateAddress(from.Addr, nonce, code, mininet.ZoneLoc)
+				if _, err := caddr.InternalAndQuaiAddress(); err == nil {
+					break
+				}
+			}
+			inner := &types.QuaiTx{ChainID: e.ChainID, Nonce: nonce, GasPrice: r.gasPrice(), Gas: 300000, To: nil, Value: big.NewInt(0), Data: code,
+				AccessList: types.AccessList{{Address: caddr}}}
+			tx, err := types.SignTx(types.NewTx(inner), e.Signer, from.Priv)
+			if err != nil {
+				continue
+			}
+			if err := e.AddTx(tx); err == nil {
+				submitted++
+				r.quaiNonce[from.Addr]++
+				r.FailingTxs++
 			}
 		default: // small Quai -> Qi conversion
 			from := e.Quai[r.R.Intn(len(e.Quai))]
